@@ -279,6 +279,12 @@ fn pick_id(r: &mut Rng, st: &PushState, issued: &[i32]) -> i32 {
     match r.below(10) {
         0 => *r.pick(&[0, -1, i32::MIN, i32::MAX]),
         1 | 2 if !issued.is_empty() => *r.pick(issued), // possibly stale
+        // relatives of a live id: its negation and its neighbours (an id operand is a position in
+        // nobody's list: -id, id+1, id-1 name no node unless they happen to be live themselves)
+        3 if !live.is_empty() => {
+            let id = *r.pick(&live);
+            *r.pick(&[-id, id + 1, id - 1, id.wrapping_add(i32::MIN)])
+        }
         _ if !live.is_empty() => *r.pick(&live),
         _ => 1 + r.below(50) as i32,
     }
